@@ -140,10 +140,30 @@ fn gen_valid(rng: &mut Rng, big_arrays: bool) -> GenLib {
             }
             let sh = &shapes[rng.usize(shapes.len())];
             let a = sh.geo.anchor();
-            let (layer, p) = match rng.below(5) {
+            // bounding box and vertices of the shape, for near-miss label positions
+            let verts: Vec<P> = match &sh.geo {
+                Geo::Rect(p0, p1) => vec![*p0, (p1.0, p0.1), *p1, (p0.0, p1.1)],
+                Geo::Poly(v) => v.clone(),
+                Geo::Path(v, _) => v.clone(),
+            };
+            let (bx0, bx1) = (verts.iter().map(|v| v.0).min().unwrap(), verts.iter().map(|v| v.0).max().unwrap());
+            let (by0, by1) = (verts.iter().map(|v| v.1).min().unwrap(), verts.iter().map(|v| v.1).max().unwrap());
+            let (layer, p) = match rng.below(9) {
                 0 => (sh.layer, a),                                  // a vertex / path start
                 1 => (sh.layer, (a.0 + 5000, a.1 + 5000)),           // far outside everything
                 2 => (sh.layer.wrapping_add(77), a),                 // other layer
+                3 => (sh.layer, (rng.range(bx0 - 2, bx1 + 2), rng.range(by0 - 2, by1 + 2))), // anywhere in / just around the bounding box
+                4 => {
+                    // in line with a vertex (hence with the edges through it), anywhere across the bounding box: inside, on or outside
+                    let v = *rng.pick(&verts);
+                    if rng.bool() { (sh.layer, (v.0, rng.range(by0 - 1, by1 + 1))) } else { (sh.layer, (rng.range(bx0 - 1, bx1 + 1), v.1)) }
+                }
+                5 => {
+                    // an edge midpoint and its neighbours
+                    let k = rng.usize(verts.len());
+                    let (u, w) = (verts[k], verts[(k + 1) % verts.len()]);
+                    (sh.layer, ((u.0 + w.0).div_euclid(2) + rng.range(-1, 1), (u.1 + w.1).div_euclid(2) + rng.range(-1, 1)))
+                }
                 _ => {
                     // search a nearby lattice point that is inside
                     let mut q = a;
